@@ -162,9 +162,9 @@ func vh_C08_connect_after_shutdown() {
 	// transport handlers only (checked before NewClient); connectCmd and
 	// Hub.add do not consult it, so a connect command processed after
 	// Shutdown returned registers and connects the connection.
+	vCover(true, "reached")
 	vKnown("C08-connect-after-shutdown", status == statusConnected)
 	vAssert(status != statusConnected, "no-connection-becomes-connected-after-shutdown")
 	vAssert(connects == 0, "no-connect-callback-after-shutdown")
 	vAssert(n.hub.NumClients() == 0, "no-registered-connection-after-shutdown")
-	vCover(true, "reached")
 }
